@@ -61,7 +61,7 @@ FxNeg(a) == ZNeg(a)
 FxAbs(a) == ZAbs(a)
 FxScaleInt(a, k) == ZMulInt(a, k)               \* exact
 FxDivInt(a, k) == ZDivT(a, ZFromInt(k))         \* truncated
-FxMid(a, b) == FxHalfOf(ZAdd(a, b))
+FxMid(a, b) == ZDivTFast(ZAdd(a, b), ZFromInt(2))
 (* the grid value k/unit; exact when unit divides 10^12 * k.  The usual units get a pre-computed step so that a   *)
 (* conversion is one small multiplication instead of a long division (0.6 ms each in TLC)                        *)
 FxStep1024 == FxFromRat(1, 1024)
@@ -125,17 +125,13 @@ IsWeightedMedian(m, a, w) ==
 PairLt(p, q) == ZLt(p[1], q[1])
 SortedPairs(a, w) == SortSeq([i \in 1..Len(a) |-> <<a[i], w[i]>>], PairLt)
 SupportPairs(a, w) == SelectSeq(SortedPairs(a, w), LAMBDA p : ~ZIsZero(p[2]))
-RECURSIVE PrefixSumsFrom(_, _, _, _)
-PrefixSumsFrom(ws, k, run, acc) ==
-    IF k > Len(ws) THEN acc
-    ELSE LET nx == ZAdd(run, ws[k]) IN PrefixSumsFrom(ws, k + 1, nx, Append(acc, nx))
-PrefixSums(ws) == PrefixSumsFrom(ws, 1, ZZero, <<>>)
-(* first k with 2 * cum[k] >= W (strict = FALSE) or > W (strict = TRUE); Len(cum) + 1 if none *)
-RECURSIVE FirstReach(_, _, _, _)
-FirstReach(cum, W, k, strict) ==
-    IF k > Len(cum) THEN k
-    ELSE LET c2 == ZMulInt(cum[k], 2) IN
-         IF (IF strict THEN ZLt(W, c2) ELSE ZLe(W, c2)) THEN k ELSE FirstReach(cum, W, k + 1, strict)
+(* running sums (iterative: FoldLeft, no recursion depth) *)
+PrefixSums(ws) ==
+    FoldLeft(LAMBDA acc, x : LET nx == ZAdd(acc[1], x) IN <<nx, Append(acc[2], nx)>>, <<ZZero, <<>>>>, ws)[2]
+(* first k with 2 * cum[k] >= W (strict = FALSE) or > W (strict = TRUE) in a non-decreasing cum; Len(cum) + 1 if none *)
+FirstReach(cum, W, k0, strict) ==
+    LET reached(k) == LET c2 == ZMulInt(cum[k], 2) IN IF strict THEN ZLt(W, c2) ELSE ZLe(W, c2)
+    IN k0 + Cardinality({k \in k0..Len(cum) : ~reached(k)})
 (* the closed interval [lo, hi] of all m satisfying the characterisation (total weight > 0 required):         *)
 (* lo = first support value whose cumulative weight reaches half, hi = last support value before which no     *)
 (* more than half has accumulated.  lo = hi unless the half-weight point falls exactly between two values.    *)
@@ -316,7 +312,7 @@ IsMedianOfOdd(m, win) ==
 (* rolling median with mirrored edges: out[i] = median(padded[i .. i + 2 wing]) *)
 RollingMedian(x, wing) ==
     LET p == MirrorPad(x, wing) IN
-    [i \in 1..Len(x) |-> LET t == ISort(SubSeq(p, i, i + 2 * wing)) IN t[wing + 1]]
+    [i \in 1..Len(x) |-> LET t == SortSeq(SubSeq(p, i, i + 2 * wing), LAMBDA u, v : u < v) IN t[wing + 1]]
 IsRollingMedian(out, x, wing) ==
     LET p == MirrorPad(x, wing) IN
     /\ Len(out) = Len(x)
@@ -331,8 +327,7 @@ RatLeInt(p, q) == ZLe(ZMul(ZFromInt(p[1]), ZFromInt(q[2])), ZMul(ZFromInt(q[1]),
 ZRatLe(p, q) == ZLe(ZMul(p[1], q[2]), ZMul(q[1], p[2]))         \* positive denominators
 ZRatEq(p, q) == ZMul(p[1], q[2]) = ZMul(q[1], p[2])
 ZRatMin(p, q) == IF ZRatLe(p, q) THEN p ELSE q
-RECURSIVE ZRatMinOver(_, _, _)
-ZRatMinOver(terms, k, acc) == IF k > Len(terms) THEN acc ELSE ZRatMinOver(terms, k + 1, ZRatMin(acc, terms[k]))
+ZRatMinOver(terms, k, acc) == FoldLeft(ZRatMin, acc, SubSeq(terms, k, Len(terms)))
 BHAdjust(ps) ==
     LET n == Len(ps)
         R == [j \in 1..n |-> Cardinality({k \in 1..n : RatLeInt(ps[k], ps[j])})]
